@@ -60,9 +60,11 @@ VARIABLES
   rw,     \* [Tasks -> Tasks \cup {0}] owner of the waker stored in relay "W"
   par,    \* [Tasks -> Tasks \cup {0}] spawner (0 = external)
   seen,   \* [Tasks -> BOOLEAN] polled at least once (a waker is stashed)
-  ov      \* [Tasks -> [Tasks -> Nat]] ov[u][t] = polls of t since u was woken
+  ov,     \* [Tasks -> [Tasks -> Nat]] ov[u][t] = polls of t since u was woken
+  run,    \* BOOLEAN: inside a call of Executor::run_until_stalled
+  rc      \* completions counted by the current run_until_stalled call
 
-avars == <<st, woken, cur, ph, blk, left, sig, wt, relay, rw, par, seen, ov>>
+avars == <<st, woken, cur, ph, blk, left, sig, wt, relay, rw, par, seen, ov, run, rc>>
 
 AInit ==
   /\ st = [t \in Tasks |-> "A"]
@@ -78,6 +80,8 @@ AInit ==
   /\ par = [t \in Tasks |-> 0]
   /\ seen = [t \in Tasks |-> FALSE]
   /\ ov = [u \in Tasks |-> Zero]
+  /\ run = FALSE
+  /\ rc = 0
 
 \* the same, as an action (used by `reset` records of a trace)
 AReset ==
@@ -94,6 +98,8 @@ AReset ==
   /\ par' = [t \in Tasks |-> 0]
   /\ seen' = [t \in Tasks |-> FALSE]
   /\ ov' = [u \in Tasks |-> Zero]
+  /\ run' = FALSE
+  /\ rc' = 0
 
 -----------------------------------------------------------------------------
 \* helpers
@@ -113,20 +119,29 @@ NextId     == Cardinality({t \in Tasks : st[t] # "A"}) + 1
 -----------------------------------------------------------------------------
 \* scheduler steps
 
-\* step() enters the body of task t
-PollBegin(t) ==
+\* The run loop enters the body of task t.  D = finished tasks (queued by
+\* stale wakers) that run_until_stalled has dequeued, invisibly, since the
+\* last observed event: their polls enter no body and count as complete.
+\* Outside run_until_stalled every step() is observed, so D = {}.
+DoneWoken == {d \in woken : st[d] = "D"}
+PollBeginD(t, D) ==
   /\ cur = 0
+  /\ D \subseteq DoneWoken /\ (D # {} => run)
   /\ t \in woken
   /\ st[t] = "I"                          \* never a finished (or unknown) task
   /\ \A u \in woken \ {t} : st[u] = "I" => ov[u][t] < MaxOver
   /\ cur' = t /\ ph' = "run"
-  /\ woken' = woken \ {t}
+  /\ woken' = (woken \ D) \ {t}
+  /\ rc' = rc + Cardinality(D)
+  /\ UNCHANGED run
   /\ seen' = [seen EXCEPT ![t] = TRUE]
   /\ ov' = [u \in Tasks |->
               IF u = t THEN Zero
               ELSE IF u \in woken /\ st[u] = "I" THEN [ov[u] EXCEPT ![t] = @ + 1]
               ELSE ov[u]]
   /\ UNCHANGED <<st, blk, left, sig, wt, relay, rw, par>>
+
+PollBegin(t) == PollBeginD(t, {})
 
 \* step() pops a finished task that a stale waker had queued: Some(true),
 \* no body entered
@@ -135,7 +150,8 @@ Noop(d) ==
   /\ d \in woken
   /\ st[d] = "D"
   /\ woken' = woken \ {d}
-  /\ UNCHANGED <<st, cur, ph, blk, left, sig, wt, relay, rw, par, seen, ov>>
+  /\ rc' = IF run THEN rc + 1 ELSE rc
+  /\ UNCHANGED <<st, cur, ph, blk, left, sig, wt, relay, rw, par, seen, ov, run>>
 
 \* the poll of t returns; ret is step()'s Some(ret)
 PollEnd(t, ret) ==
@@ -144,13 +160,32 @@ PollEnd(t, ret) ==
   /\ ret = (ph = "ready")
   /\ st' = [st EXCEPT ![t] = IF ret THEN "D" ELSE "I"]
   /\ cur' = 0 /\ ph' = "none"
-  /\ UNCHANGED <<woken, blk, left, sig, wt, relay, rw, par, seen, ov>>
+  /\ rc' = IF run /\ ret THEN rc + 1 ELSE rc
+  /\ UNCHANGED <<woken, blk, left, sig, wt, relay, rw, par, seen, ov, run>>
 
 \* step() = None
 Stall ==
-  /\ cur = 0
+  /\ cur = 0 /\ ~run
   /\ woken = {}
   /\ UNCHANGED avars
+
+\* Executor::run_until_stalled is called ...
+RunBegin ==
+  /\ cur = 0 /\ ~run
+  /\ run' = TRUE /\ rc' = 0
+  /\ UNCHANGED <<st, woken, cur, ph, blk, left, sig, wt, relay, rw, par, seen, ov>>
+
+\* ... and returns n: every woken task has been polled (the finished ones in
+\* D without entering a body), each once per wake, nothing is left woken (a
+\* genuine stall, see StallGenuine), and n is the number of polls that
+\* reported completion
+RunEnd(n) ==
+  /\ cur = 0 /\ run
+  /\ woken = DoneWoken
+  /\ n = rc + Cardinality(DoneWoken)
+  /\ woken' = {}
+  /\ run' = FALSE /\ rc' = 0
+  /\ UNCHANGED <<st, cur, ph, blk, left, sig, wt, relay, rw, par, seen, ov>>
 
 -----------------------------------------------------------------------------
 \* spawning: p = 0 external (Executor::spawn[_pinned]), p > 0 inside p's poll
@@ -158,31 +193,31 @@ Stall ==
 
 Spawn(p, c, rl) ==
   /\ c \in Tasks /\ c = NextId
-  /\ IF p = 0 THEN cur = 0 ELSE Free(p)
+  /\ IF p = 0 THEN cur = 0 /\ ~run ELSE Free(p)
   /\ left' = IF p = 0 THEN [left EXCEPT ![c] = Budget]
                       ELSE [left EXCEPT ![p] = @ - 1, ![c] = Budget]
   /\ st' = [st EXCEPT ![c] = "I"]
   /\ par' = [par EXCEPT ![c] = p]
   /\ relay' = [relay EXCEPT ![c] = IF rl THEN "P" ELSE "N"]
   /\ WakeAll({c})
-  /\ UNCHANGED <<cur, ph, blk, sig, wt, rw, seen>>
+  /\ UNCHANGED <<cur, ph, blk, sig, wt, rw, seen, run, rc>>
 
 \* waking u through a stashed waker: p = 0 between steps, p > 0 inside p's poll
 Kick(p, u) ==
   /\ u \in Tasks /\ seen[u]
-  /\ IF p = 0 THEN cur = 0 /\ UNCHANGED left
+  /\ IF p = 0 THEN cur = 0 /\ ~run /\ UNCHANGED left
               ELSE Free(p) /\ u # p /\ Spend(p)
   /\ WakeAll({u})
-  /\ UNCHANGED <<st, cur, ph, blk, sig, wt, relay, rw, par, seen>>
+  /\ UNCHANGED <<st, cur, ph, blk, sig, wt, relay, rw, par, seen, run, rc>>
 
 \* Receiver::try_receive from outside; r, v = observed result
 Try(c, r, v) ==
-  /\ cur = 0
+  /\ cur = 0 /\ ~run
   /\ c \in Tasks /\ relay[c] # "N"
   /\ CASE relay[c] = "C" -> r = "ok" /\ v = Val(c) /\ relay' = [relay EXCEPT ![c] = "D"]
        [] relay[c] = "D" -> r = "already" /\ UNCHANGED relay
        [] OTHER          -> r = "notsent" /\ UNCHANGED relay
-  /\ UNCHANGED <<st, woken, cur, ph, blk, left, sig, wt, rw, par, seen, ov>>
+  /\ UNCHANGED <<st, woken, cur, ph, blk, left, sig, wt, rw, par, seen, ov, run, rc>>
 
 -----------------------------------------------------------------------------
 \* actions of the task being polled
@@ -192,7 +227,7 @@ Yield(t) ==
   /\ WakeAll({t})
   /\ IF YieldFree THEN UNCHANGED left ELSE Spend(t)
   /\ ph' = "pend"
-  /\ UNCHANGED <<st, cur, blk, sig, wt, relay, rw, par, seen>>
+  /\ UNCHANGED <<st, cur, blk, sig, wt, relay, rw, par, seen, run, rc>>
 
 \* re = this is the retry of a wait the task is blocked in; r = "pass" | "block"
 Wait(t, k, re, r) ==
@@ -210,7 +245,7 @@ Wait(t, k, re, r) ==
           /\ ph' = "pend"
           /\ UNCHANGED sig
   /\ NoWake
-  /\ UNCHANGED <<st, cur, relay, rw, par, seen>>
+  /\ UNCHANGED <<st, cur, relay, rw, par, seen, run, rc>>
 
 Signal(t, k) ==
   /\ Free(t) /\ k \in Chans
@@ -218,7 +253,7 @@ Signal(t, k) ==
   /\ sig' = [sig EXCEPT ![k] = TRUE]
   /\ WakeAll(wt[k])
   /\ wt' = [wt EXCEPT ![k] = {}]
-  /\ UNCHANGED <<st, cur, ph, blk, relay, rw, par, seen>>
+  /\ UNCHANGED <<st, cur, ph, blk, relay, rw, par, seen, run, rc>>
 
 \* poll of child c's Receiver in t's context; r = "recv" (v = value) | "block"
 Await(t, c, re, r, v) ==
@@ -237,7 +272,7 @@ Await(t, c, re, r, v) ==
           /\ blk' = [blk EXCEPT ![t] = AwaitBase + c]
           /\ ph' = "pend"
   /\ NoWake
-  /\ UNCHANGED <<st, cur, sig, wt, par, seen>>
+  /\ UNCHANGED <<st, cur, sig, wt, par, seen, run, rc>>
 
 \* the body returns Ready; the wrapper of spawn() then sends the value, which
 \* wakes the stored waker of a receiver that has been polled
@@ -246,12 +281,15 @@ Complete(t) ==
   /\ ph' = "ready"
   /\ relay' = [relay EXCEPT ![t] = IF @ = "N" THEN "N" ELSE "C"]
   /\ IF relay[t] = "W" THEN WakeAll({rw[t]}) ELSE NoWake
-  /\ UNCHANGED <<st, cur, blk, left, sig, wt, rw, par, seen>>
+  /\ UNCHANGED <<st, cur, blk, left, sig, wt, rw, par, seen, run, rc>>
 
 -----------------------------------------------------------------------------
 \* The abstract next-state relation: any woken task may be polled.
 ANext ==
   \/ \E t \in Tasks : PollBegin(t) \/ Noop(t) \/ Yield(t) \/ Complete(t)
+  \/ \E t \in Tasks, D \in SUBSET Tasks : PollBeginD(t, D)
+  \/ RunBegin
+  \/ RunEnd(rc + Cardinality(DoneWoken))
   \/ \E t \in Tasks, b \in BOOLEAN : PollEnd(t, b)
   \/ \E p \in Tasks \cup {0}, rl \in BOOLEAN : Spawn(p, NextId, rl)
   \/ \E p \in Tasks \cup {0}, u \in Tasks : Kick(p, u)
@@ -273,6 +311,7 @@ TypeOK ==
   /\ \A t \in Tasks : left[t] \in 0 .. Budget
   /\ relay \in [Tasks -> {"N", "P", "W", "C", "D"}]
   /\ (cur = 0) = (ph = "none")
+  /\ run \in BOOLEAN /\ rc \in Nat /\ (~run => rc = 0)
 
 \* only known tasks are ever queued
 WokenKnown == \A t \in woken : st[t] # "A"
